@@ -462,7 +462,7 @@ class kFlowDecomp(pathmodel.AbstractPathModelDAG):
 
     def _remove_empty_paths(self, solution):
         """
-        Removes empty paths from the solution. Empty paths are those with 0 or 1 nodes.
+        Removes empty paths from the solution. Empty paths are those without nodes.
 
         Parameters
         ----------
@@ -484,7 +484,8 @@ class kFlowDecomp(pathmodel.AbstractPathModelDAG):
         internal_paths = solution.get("_paths_internal", solution["paths"])
         non_empty_internal = []
         for path, internal_path, weight in zip(solution["paths"], internal_paths, solution["weights"]):
-            if len(internal_path) > 1:
+            # A route through a single node (an isolated node, or a node that is both a start and an end) is not empty
+            if len(internal_path) > 0:
                 non_empty_internal.append(internal_path)
                 non_empty_paths.append(path)
                 non_empty_weights.append(weight)
